@@ -66,7 +66,7 @@ EXT_MENU = [[], [], ["stride=%d"], ["stride=%d", "stripe_width=%d"], ["resize=%d
 def host_tree():
     """a small host directory tree for -d (built once)"""
     d = os.path.join(WORK, "tree")
-    if not os.path.exists(os.path.join(d, ".done")):
+    if not os.path.exists(os.path.join(d, ".done2")):
         os.makedirs(os.path.join(d, "a/b/c"), exist_ok=True)
         rr = e2v.rng(1, "c07tree")
         for i in range(25):
@@ -78,8 +78,27 @@ def host_tree():
         if not os.path.lexists(os.path.join(d, "a/b/c/link")):
             os.symlink("../../f00", os.path.join(d, "a/b/c/link"))
             os.link(os.path.join(d, "a/f01"), os.path.join(d, "a/b/hard"))
-        open(os.path.join(d, ".done"), "w").close()
+        for nm, n in (("long80", 80), ("long59", 59), ("long60", 60), ("long200", 200)):
+            if not os.path.lexists(os.path.join(d, "a", nm)):
+                os.symlink("t" * n, os.path.join(d, "a", nm))      # 60 bytes and more do not fit i_block: inline data where enabled
+        open(os.path.join(d, ".done2"), "w").close()
+    if not _WARM:
+        # access times of the source are inputs of mke2fs -d, and the kernel (relatime) moves them on the first read after a
+        # change or after a day: read everything once before any two runs are compared
+        for root, dirs, files in os.walk(d):
+            os.listdir(root)
+            for nm in files + dirs:
+                p_ = os.path.join(root, nm)
+                if os.path.islink(p_):
+                    os.readlink(p_)
+                elif os.path.isfile(p_):
+                    with open(p_, "rb") as f:
+                        f.read()
+        _WARM.append(1)
     return d
+
+
+_WARM = []
 
 
 # combinations that random sampling reaches rarely; they run first
@@ -116,6 +135,9 @@ DIRECTED = [
     (["-t", "ext4", "-b", "1024", "-O", "^extent,^64bit"], [], 20000),
     (["-t", "ext4", "-b", "4096", "-O", "fast_commit"], [], 65536),
     (["-t", "ext4", "-b", "1024", "-O", "fast_commit,^extent,^64bit", "-J", "size=4"], ["orphan_file_size=65536"], 32768),
+    # populated from a host tree with symlinks of 59, 60, 80 and 200 bytes: quota files vs what e2fsck counts (inline-data symlinks)
+    (["-t", "ext4", "-b", "1024", "-O", "quota,inline_data", "-d", "@TREE"], [], 32768),
+    (["-t", "ext4", "-b", "4096", "-O", "quota,project,inline_data", "-I", "512", "-d", "@TREE"], [], 65536),
     # the listed known finding (inode count rounded below the request): 1000 inodes over 4 groups of 4-inode blocks
     (["-t", "ext4", "-b", "1024", "-I", "256", "-N", "1000"], [], 32768),
     # dense inodes under flex_bg: packed inode tables that straddle a group boundary
@@ -135,6 +157,7 @@ def gen_config(r, idx=None):
         feats = []
         if "-O" in opts:
             feats = opts[opts.index("-O") + 1].split(",")
+        opts = [host_tree() if o == "@TREE" else o for o in opts]
         return {"opts": list(opts), "ext": list(ext), "size_k": size_k, "bs": int(opts[opts.index("-b") + 1]), "type": opts[1], "feats": feats,
                 "prev": len(DIRECTED[idx]) > 3}
     fam = r.random()
